@@ -840,8 +840,12 @@ Subroutine.__module__ = "pyteal"
 @contextmanager
 def _frame_pointer_context(proto: Proto | None):
     tmp, SubroutineEval._current_proto = SubroutineEval._current_proto, proto
-    yield proto
-    SubroutineEval._current_proto = tmp
+    try:
+        yield proto
+    finally:
+        # restore also when the subroutine body raises, so that a failed compilation does not
+        # leave the frame-pointer marker set for unrelated programs built later
+        SubroutineEval._current_proto = tmp
 
 
 @dataclass
